@@ -707,6 +707,94 @@ func (il *inliner) inlineCall(pk *packages.Package, f *ast.File, file string, st
 		})
 	}
 
+	callScope := pk.Types.Scope().Innermost(call.Pos())
+	if callScope == nil {
+		return false
+	}
+	// a type of this package can be named at the call site only if nothing there shadows its name
+	nameable := func(t types.Type) bool {
+		okk := true
+		var walk func(t types.Type, d int)
+		walk = func(t types.Type, d int) {
+			if d > 6 || t == nil {
+				return
+			}
+			switch x := t.(type) {
+			case *types.Named:
+				if x.Obj().Pkg() == pk.Types {
+					if _, o := callScope.LookupParent(x.Obj().Name(), call.Pos()); o != types.Object(x.Obj()) {
+						okk = false
+					}
+				}
+				if x.TypeArgs() != nil {
+					for i := 0; i < x.TypeArgs().Len(); i++ {
+						walk(x.TypeArgs().At(i), d+1)
+					}
+				}
+			case *types.Pointer:
+				walk(x.Elem(), d+1)
+			case *types.Slice:
+				walk(x.Elem(), d+1)
+			case *types.Array:
+				walk(x.Elem(), d+1)
+			case *types.Map:
+				walk(x.Key(), d+1)
+				walk(x.Elem(), d+1)
+			case *types.Chan:
+				walk(x.Elem(), d+1)
+			case *types.Signature:
+				for i := 0; i < x.Params().Len(); i++ {
+					walk(x.Params().At(i).Type(), d+1)
+				}
+				for i := 0; i < x.Results().Len(); i++ {
+					walk(x.Results().At(i).Type(), d+1)
+				}
+			case *types.Struct:
+				for i := 0; i < x.NumFields(); i++ {
+					walk(x.Field(i).Type(), d+1)
+				}
+			}
+		}
+		walk(t, 0)
+		return okk
+	}
+	inferParam := map[int]bool{} // parameters bound by `var p = arg` because their type cannot be named here
+	for i, pvv := range paramVars {
+		if nameable(pvv.Type()) {
+			continue
+		}
+		var argT types.Type
+		if sig.Recv() != nil && i == 0 {
+			if sel, ok := call.Fun.(*ast.SelectorExpr); ok {
+				argT = info.TypeOf(sel.X)
+				if argTexts[0] != text(sel.X) {
+					argT = nil // &x / *x: the receiver's type is the parameter's by construction
+					inferParam[i] = true
+					continue
+				}
+			}
+		} else {
+			ai := i
+			if sig.Recv() != nil {
+				ai--
+			}
+			if ai < len(call.Args) && !(sig.Variadic() && ai >= np-1) {
+				argT = info.TypeOf(call.Args[ai])
+			}
+		}
+		if argT == nil || !types.Identical(argT, pvv.Type()) {
+			dbg("%s: type of parameter %d cannot be named at the call site", callee.Name(), i)
+			return false
+		}
+		inferParam[i] = true
+	}
+	for i := 0; i < sig.Results().Len(); i++ {
+		if !nameable(sig.Results().At(i).Type()) {
+			dbg("%s: type of result %d cannot be named at the call site", callee.Name(), i)
+			return false
+		}
+	}
+
 	if variadicLit >= 0 {
 		if len(variadicExtra) == 0 {
 			argTexts[variadicLit] = "nil"
@@ -717,10 +805,6 @@ func (il *inliner) inlineCall(pk *packages.Package, f *ast.File, file string, st
 
 	// ---- shadowing: package-level and universe names of the body must mean the same at the call site
 	calleeInfo := di.pk.TypesInfo
-	callScope := pk.Types.Scope().Innermost(call.Pos())
-	if callScope == nil {
-		return false
-	}
 	shadow := false
 	ctf := di.pk.Fset.File(di.decl.Pos())
 	csrc := il.source(ctf.Name())
@@ -853,7 +937,7 @@ func (il *inliner) inlineCall(pk *packages.Package, f *ast.File, file string, st
 						if n == "_" || n == "" {
 							continue
 						}
-						fmt.Fprintf(&cb, "var %s %s = %s; _ = %s; ", n, cont.types[i], resTemps[i], n)
+						fmt.Fprintf(&cb, "var %s = %s; _ = %s; ", n, resTemps[i], n)
 					}
 					cb.WriteString(cont.text + " } ; break " + label + " }")
 					bodyEdits = append(bodyEdits, textEdit{rs, re, cb.String(), 0})
@@ -877,7 +961,7 @@ func (il *inliner) inlineCall(pk *packages.Package, f *ast.File, file string, st
 						if n == "_" || n == "" {
 							continue
 						}
-						fmt.Fprintf(&cb, "var %s %s = %s; _ = %s; ", n, cont.types[i], resTemps[i], n)
+						fmt.Fprintf(&cb, "var %s = %s; _ = %s; ", n, resTemps[i], n)
 					}
 					cb.WriteString(cont.text + " }")
 					tailText = cb.String() + tailText
@@ -959,18 +1043,25 @@ func (il *inliner) inlineCall(pk *packages.Package, f *ast.File, file string, st
 		fmt.Fprintf(&b, "var %s %s; ", resTemps[i], typeText(sig.Results().At(i).Type()))
 	}
 	b.WriteString("{ ")
+	// the argument temporaries carry the declared parameter types (named where the caller's names are in
+	// force); inside, the parameters and named results take their types from them, so that a parameter
+	// with the name of a type (`latch *latch`) does no harm
 	for i, a := range argTexts {
-		fmt.Fprintf(&b, "var %s_a%d %s = %s; ", k, i, typeText(paramVars[i].Type()), a)
+		if inferParam[i] {
+			fmt.Fprintf(&b, "var %s_a%d = %s; ", k, i, a)
+		} else {
+			fmt.Fprintf(&b, "var %s_a%d %s = %s; ", k, i, typeText(paramVars[i].Type()), a)
+		}
 	}
 	b.WriteString("{ ")
 	for i, n := range paramNames {
-		fmt.Fprintf(&b, "var %s %s = %s_a%d; ", n, typeText(paramVars[i].Type()), k, i)
+		fmt.Fprintf(&b, "var %s = %s_a%d; ", n, k, i)
 		if n != "_" {
 			fmt.Fprintf(&b, "_ = %s; ", n)
 		}
 	}
 	for i, n := range resultNames {
-		fmt.Fprintf(&b, "var %s %s; _ = %s; ", n, typeText(sig.Results().At(i).Type()), n)
+		fmt.Fprintf(&b, "var %s = %s; _ = %s; ", n, resTemps[i], n)
 	}
 	for _, fl := range deferFlags {
 		fmt.Fprintf(&b, "var %s bool; ", fl)
@@ -999,7 +1090,13 @@ func (il *inliner) inlineCall(pk *packages.Package, f *ast.File, file string, st
 		return true
 	}
 	if cont != nil {
-		fe.edits = append(fe.edits, textEdit{tf.Offset(ins.next.Pos()), tf.Offset(ins.next.End()), "", g})
+		var use strings.Builder
+		for _, n := range cont.names {
+			if n != "_" && n != "" {
+				use.WriteString("_ = " + n + "; ")
+			}
+		}
+		fe.edits = append(fe.edits, textEdit{tf.Offset(ins.next.Pos()), tf.Offset(ins.next.End()), use.String(), g})
 	}
 	if ins.dropStmt {
 		// an expression statement: the statement is the call
